@@ -171,7 +171,7 @@ pub fn canon_tokens(c: &Contents) -> Vec<String> {
     let (rps, _) = split(c);
     let mut out = vec![];
     // one row: cells top to bottom; run -> token
-    let mut row = |cells: Vec<RP>, out: &mut Vec<String>| {
+    let row = |cells: Vec<RP>, out: &mut Vec<String>| {
         let n = cells.len();
         let mut i = 0;
         while i < n {
